@@ -57,10 +57,10 @@ namespace Basis
 /-- The knot vector `BSplineBasis.make_periodic(continuity)` hands to the constructor. -/
 def makePeriodicKnots (b : Basis K) (continuity : ℕ) : Array K :=
   let deg := b.order - 1
-  let nk := b.knots.extract deg (b.knots.size - deg)
+  let nk := if deg = 0 then #[] else b.knots.extract deg (b.knots.size - deg)
   let diff := b.stop - b.start
   let nReps := deg - continuity - 1
-  let nCopy := deg - nReps
+  let nCopy := continuity + 1
   let m := nk.size
   let head := (nk.extract (m - nCopy - 1) (m - 1)).map (fun x => x - diff)
   let tail := (nk.extract 1 (nCopy + 1)).map (fun x => x + diff)
@@ -241,12 +241,13 @@ theorem makePeriodicKnots_openAtSeam (hn : b.order ≤ b.numFunctions + 1) :
   simp only []
   rw [openAtSeam_start hv hper hn, openAtSeam_stop hv hper hn,
     show (b.openAtSeam).order = p from rfl]
+  rw [if_neg (show ¬ p - 1 = 0 by have := hv.periodic_le; have := hv.order_pos; omega)]
   set nk := (b.openAtSeam).knots.extract (p - 1) ((b.openAtSeam).knots.size - (p - 1)) with hnk
   have hnksz : nk.size = n + k + 3 - p := by
     rw [hnk, Array.size_extract, hsz]; omega
   have hreps : p - 1 - k - 1 = p - 2 - k := by omega
   have hcopy : p - 1 - (p - 1 - k - 1) = k + 1 := by omega
-  rw [hnksz, hcopy, hreps]
+  rw [hnksz, hreps]
   apply Array.ext_getElem?
   intro i
   have hT : ∀ j, j + n < b.knots.size → b.kn (j + n) = b.kn j + (b.stop - b.start) :=
